@@ -43,3 +43,77 @@ Proof.
   - apply (dedup_nodup keq R S es []).
 Qed.
 Print Assumptions C05_each_cycle_once.
+
+(* ------------------------------------------------------------------ declarative characterisation (Proofs/StreamCycles.v)
+   For a loop body k (n lines; `renumber k` = the kernel with line numbers 1..n) let `body N k` be the periodic instruction
+   stream  position x |-> instruction x mod n  and `stream_E … (body N k) a b` the dependency edge from stream position a to b. *)
+From Coq Require Import String QArith.
+From OV Require Import Proofs.DepsScan Proofs.Rotation Proofs.RotationGlue Proofs.StreamCycles.
+Local Open Scope nat_scope.
+
+(* (a) the paths enumerated in the doubled kernel from root i = the paths of the stream from position i (instruction i in one
+   iteration) to position i + n (the same instruction in the next iteration); `cycle_lines` only renames positions to the line
+   numbers of the doubled kernel (x + 1 resp. x - n + 1 + offset) *)
+Theorem C05_lcd_paths_are_stream_cycles : forall (T : Type) (N : NumOps T) dep fwd pidx fd (k : list (line (T:=T))) i fuel p,
+  i < List.length k -> List.length k <= fuel ->
+  (In p (lcd_paths N dep fwd pidx fd fuel (renumber k) (nth i (renumber k) (dline N))) <->
+   exists q, spath T (stream_E N dep fwd pidx fd (body N k)) i (i + List.length k) q /\ p = cycle_lines k q).
+Proof. intros T N dep fwd pidx fd. exact (lcd_paths_are_stream_cycles N dep fwd pidx fd). Qed.
+Print Assumptions C05_lcd_paths_are_stream_cycles.
+
+(* (b) what an edge of the stream is: a < b and w is the weight of the LAST report about f b (numbered b - a when
+   f (a+1) .. f b = `between f a b` are numbered 1 .. b - a) of the scans of f a's destinations over f (a+1) .. f b *)
+Theorem C05_stream_edge_is_raw : forall (T : Type) (N : NumOps T) dep fwd pidx fd (f : nat -> line (T:=T)) a b w,
+  stream_E N dep fwd pidx fd f a b = Some w <->
+  a < b /\ exists out1 fl out2,
+    find_depending dep fd (f a) (renum_from 1 (between f a b)) = out1 ++ (b - a, fl) :: out2 /\
+    (forall nf, In nf out2 -> fst nf <> b - a) /\ w = edge_weight N fwd pidx (f a) fl.
+Proof. intros T N dep fwd pidx fd. exact (stream_edge_is_last_report N dep fwd pidx fd). Qed.
+Print Assumptions C05_stream_edge_is_raw.
+
+Theorem C05_stream_edge_exists_iff_report : forall (T : Type) (N : NumOps T) dep fwd pidx fd (f : nat -> line (T:=T)) a b,
+  (exists w, stream_E N dep fwd pidx fd f a b = Some w) <->
+  a < b /\ exists fl, In (b - a, fl) (find_depending dep fd (f a) (renum_from 1 (between f a b))).
+Proof. intros T N dep fwd pidx fd. exact (stream_edge_exists_iff_report N dep fwd pidx fd). Qed.
+Print Assumptions C05_stream_edge_exists_iff_report.
+
+(* ... and a register/flag (non store-to-load) report about f b exists iff f b reads a destination of f a that no instruction
+   strictly between them writes (read after write) *)
+Theorem C05_stream_edge_read_after_write : forall (T : Type) (N : NumOps T) dep fd (f : nat -> line (T:=T)) a b, a < b ->
+  ((exists fl, In (b - a, fl) (find_depending dep fd (f a) (renum_from 1 (between f a b))) /\ fl <> FStoreLoad) <->
+   (exists d, In d (dsts (f a)) /\ is_regflag fd d /\ is_read dep d (f b) = true /\
+              forall c, a < c < b -> is_written dep d (f c) = false)).
+Proof. intros T N dep fd. exact (stream_edge_raw N dep fd). Qed.
+Print Assumptions C05_stream_edge_read_after_write.
+
+(* (c) entries: every reported loop-carried dependency is `cycle_entry` of such a stream cycle -- latency = the weights along the
+   cycle added left to right from 0, members = its instructions (line = position mod n + 1) with the weight of the edge leaving
+   them, sorted -- and every stream cycle is represented by a reported entry with the same sorted (line, latency) list *)
+Theorem C05_lcd_entries_are_stream_cycles : forall (T : Type) (N : NumOps T) dep fwd pidx fd (k : list (line (T:=T))) e,
+  In e (lcd_entries N dep fwd pidx fd (renumber k)) ->
+  exists i q, i < List.length k /\ spath T (stream_E N dep fwd pidx fd (body N k)) i (i + List.length k) q /\
+              e = (fold_left (nadd N) (map snd q) (n0 N),
+                   sort_pairs N (map (fun xw => (fst xw mod List.length k + 1, snd xw)) q)).
+Proof. intros T N dep fwd pidx fd. exact (lcd_entries_are_stream_cycles N dep fwd pidx fd). Qed.
+Print Assumptions C05_lcd_entries_are_stream_cycles.
+
+Theorem C05_stream_cycles_are_reported : forall (T : Type) (N : NumOps T) dep fwd pidx fd (k : list (line (T:=T))) i q,
+  (forall a, neqb N a a = true) ->
+  i < List.length k -> spath T (stream_E N dep fwd pidx fd (body N k)) i (i + List.length k) q ->
+  exists e, In e (lcd_entries N dep fwd pidx fd (renumber k)) /\
+            pairs_eqb N (sort_pairs N (map (fun xw => (fst xw mod List.length k + 1, snd xw)) q)) (snd e) = true.
+Proof. intros T N dep fwd pidx fd. exact (stream_cycles_are_reported N dep fwd pidx fd). Qed.
+Print Assumptions C05_stream_cycles_are_reported.
+
+(* non-vacuity: the kernel a <- f(c); b <- f(a); c <- f(b) (latencies 1, 2, 3): the stream cycle 0 -> 1 -> 2 -> 3 exists, is the
+   enumerated path [(1,1);(2,2);(3,3)] and its entry is (6, [(1,1);(2,2);(3,3)]) *)
+Example C05_stream_cycle_nonvacuous :
+  spath Q (stream_E QNum (fun a b => String.eqb (r_name a) (r_name b)) 0%Q 0%Q true (body QNum ex_kernel))
+        0 (0 + List.length ex_kernel) [(0, 1%Q); (1, 2%Q); (2, 3%Q)] /\
+  cycle_lines ex_kernel [(0, 1%Q); (1, 2%Q); (2, 3%Q)] = [(1, 1%Q); (2, 2%Q); (3, 3%Q)] /\
+  cycle_entry QNum ex_kernel [(0, 1%Q); (1, 2%Q); (2, 3%Q)] = (6%Q, [(1, 1%Q); (2, 2%Q); (3, 3%Q)]) /\
+  lcd_entries QNum (fun a b => String.eqb (r_name a) (r_name b)) 0%Q 0%Q true (renumber ex_kernel)
+    = [(6%Q, [(1, 1%Q); (2, 2%Q); (3, 3%Q)])].
+Proof.
+  destruct ex_stream_cycle as (A & B & C). split; [exact A|]. split; [exact B|]. split; [exact C|]. vm_compute. reflexivity.
+Qed.
